@@ -17,6 +17,25 @@ SIM_NOTE = ("Trusted base: the simulated kernel / psutil.Popen fake "
             "EPERM, job-control stops. Search never proves absence.")
 
 TABLE = {
+ "C13": dict(
+  engine="E1-simworld", category="exploration", design_ref="DESIGN.md §4 C13",
+  technique="property-based testing with a constructive oracle: the expected argv is generated first and encoded as cmd/args with random quoting and variable references of known value (Process.format_args must decode it); plus generated SimWorld histories checking cwd/env/wid of every captured process-creation call",
+  text=("Thousands of generated command lines (quotes, spaces, both "
+        "reference syntaxes in any case, unknown references, literal "
+        "dollars, list vs string args, shell on/off) are decoded by "
+        "format_args and compared with the argv they were built from; in "
+        "generated lifecycle histories every Popen call's cwd and env are "
+        "compared with the configuration and worker ids are checked for "
+        "positivity, first=1 and uniqueness among live workers."),
+  note=SIM_NOTE + " What exec really receives is checked by the live tier (E3) when built."),
+ "C19": dict(
+  engine="E1-simworld", category="exploration", design_ref="DESIGN.md §4 C19",
+  technique="property-based testing over generated watcher sets (priorities with ties, numprocesses, per-watcher and global warm-up, autostart) and start/restart sequences with injected deaths; invariant oracle over the simulated kernel's spawn log with virtual timestamps",
+  text=("For the daemon start and for every generated multi-watcher "
+        "start/restart sequence the spawn log is checked for non-increasing "
+        "priority, no interleaving between watchers, per-watcher and global "
+        "warm-up gaps, and autostart=false watchers staying stopped."),
+  note=SIM_NOTE),
  "C12": dict(
   engine="E1-simworld", category="exploration", design_ref="DESIGN.md §4 C12",
   technique="model-based property testing: a configuration model rendered to ini text, generated edit sequences (add/remove/set/revert/no-op) each followed by reloadconfig; oracles = the model, a differential against a fresh Watcher.load_from_config of the same file, and kernel pid sets / logs",
